@@ -234,7 +234,55 @@ def run_model(m, feeds):
         return None, f"unsupported: ort={ort_err} reference={str(e)[:200]}"
 
 
-def judge(spec, rng):
+def _differs(got, want):
+    for name, w in want.items():
+        g = np.asarray(got[name])
+        if g.shape != np.asarray(w).shape or not np.allclose(g, w, rtol=1e-5, atol=1e-6):
+            return name
+    return None
+
+
+def compare_runtime(spec, m, feeds, out):
+    """The built model in a runtime vs the body evaluated directly (numpy, functions expanded).
+
+    onnxruntime 1.30 mis-evaluates some valid models in which one function is inlined both in a graph and
+    in one of its nested bodies (internal names of the two copies shadow each other), and onnx.reference
+    has bugs of its own (Loop bodies returning one value twice). So a disagreement between ORT and the
+    body is only a failure of the property if the second runtime confirms ORT; if the reference agrees
+    with the body it is an ORT bug (counted); if the three disagree pairwise nothing is concluded (counted).
+    -> None | (key, what)"""
+    want = L.np_eval(spec, feeds)
+    got, rt = run_model(m, feeds)
+    out["runtime"] = rt
+    if got is None:
+        if rt.startswith("invalid"):
+            return ("model-not-runnable", rt)
+        return None
+    name = _differs(got, want)
+    if name is None:
+        return None
+    if rt == "ort":
+        try:
+            ref = L.run_reference(m, feeds)
+        except Exception:  # noqa: BLE001
+            ref = None
+        if ref is not None and _differs(ref, want) is None:
+            out["runtime"] = "ort-wrong(reference agrees with body)"
+            return None
+        if ref is None or _differs(ref, got) is not None:
+            out["runtime"] = "runtimes-disagree(no verdict)"
+            return None
+    elif rt == "reference":
+        # only onnx.reference could run the model, and it is known to mis-evaluate valid models
+        out["runtime"] = "reference-only-disagrees(no verdict)"
+        return None
+    g, w = np.asarray(got[name]), np.asarray(want[name])
+    return ("call-differs-from-body",
+            f"output {name}: runtime({rt})={g.tolist()} body={w.tolist()} feeds="
+            f"{ {k: np.asarray(v).tolist() for k, v in feeds.items()} }")
+
+
+def judge(spec, rng, feeds_first=None):
     """Model-free C14 oracle on one spec. -> dict(status, fails=[(key, what)], info)"""
     out = {"fails": [], "runtime": None}
     expected_raise = L.distinguishable_bodies(spec)
@@ -251,22 +299,17 @@ def judge(spec, rng):
         out["fails"].append(("definitions-per-key", b))
     for b in imports_cover(m):
         out["fails"].append(("imports-do-not-cover-body", b))
-    for _ in range(2):
+    for i in range(2):
         feeds = L.rand_feeds(spec, rng)
-        want = L.np_eval(spec, feeds)
-        got, rt = run_model(m, feeds)
-        out["runtime"] = rt
-        if got is None:
-            if rt.startswith("invalid"):
-                out["fails"].append(("model-not-runnable", rt))
+        if i == 0 and feeds_first is not None:
+            feeds = {k: np.asarray(v, dtype=np.asarray(feeds[k]).dtype) for k, v in feeds_first.items()}
+        bad = compare_runtime(spec, m, feeds, out)
+        if bad:
+            out["fails"].append(bad)
+            out["feeds"] = {k: np.asarray(v).tolist() for k, v in feeds.items()}
             break
-        for name, w in want.items():
-            g = np.asarray(got[name])
-            if g.shape != np.asarray(w).shape or not np.allclose(g, w, rtol=1e-5, atol=1e-6):
-                out["fails"].append(("call-differs-from-body",
-                                     f"output {name}: runtime({rt})={g.tolist()} body={np.asarray(w).tolist()} feeds="
-                                     f"{ {k: np.asarray(v).tolist() for k, v in feeds.items()} }"))
-                break
+        if out["runtime"] and not out["runtime"].startswith(("ort", "reference")):
+            break
     return out
 
 
@@ -431,24 +474,24 @@ def run(ck: core.Check):
             ck.count(None)
             continue
         dist["returned"] += 1
-        dist["runtime"][str(r["runtime"])[:11]] = dist["runtime"].get(str(r["runtime"])[:11], 0) + 1
+        dist["runtime"][str(r["runtime"])[:40]] = dist["runtime"].get(str(r["runtime"])[:40], 0) + 1
         ck.count(("prog", json.dumps(spec, sort_keys=True)) if s["call"] else None)
         for key, what in r["fails"]:
             cur = best.get(key)
             if cur is None or len(json.dumps(spec)) < len(json.dumps(cur[1])):
-                best[key] = (what, spec)
-    for key, (what, spec) in list(best.items())[:6]:
-        def same_failure(s, key=key):
-            return any(k == key for k, _ in judge(s, random.Random(0))["fails"])
+                best[key] = (what, spec, r.get("feeds"))
+    for key, (what, spec, feeds) in list(best.items())[:6]:
+        def same_failure(s, key=key, feeds=feeds):
+            return any(k == key for k, _ in judge(s, random.Random(0), feeds)["fails"])
 
         try:  # shrink the witness (failure path only)
             small = L.shrink(spec, same_failure, budget=100)
-            fails = [w for k, w in judge(small, random.Random(0))["fails"] if k == key]
+            fails = [w for k, w in judge(small, random.Random(0), feeds)["fails"] if k == key]
             if fails:
                 spec, what = small, fails[0]
         except Exception:  # noqa: BLE001
             pass
-        ck.failure(key, what, {"spec": spec})
+        ck.failure(key, what, {"spec": spec, "feeds": feeds})
 
     if drv is not None:
         # ---- (a) collection correspondence
@@ -553,7 +596,7 @@ def replay(ck: core.Check, doc) -> bool:
     if spec is None:
         print("replay file names broken obligations only:", [b["name"] for b in doc.get("broken", [])])
         return False
-    r = judge(spec, random.Random(0))
+    r = judge(spec, random.Random(0), case.get("feeds"))
     if r["status"] == "err":
         print("build raised:", r["err"])
     for k, w in r["fails"]:
